@@ -479,7 +479,8 @@ def strat_blocks(draw, tier):
             "p": st.integers(0, 17), "app_id": st.integers(1, 255)}
     for _ in range(draw(st.integers(1, 14 if tier == "thorough" else 9))):
         kind = draw(st.sampled_from(["enter", "enter", "exit", "raise",
-                                     "update", "app", "probe", "probe"]))
+                                     "update", "app", "probe", "probe",
+                                     "reenter", "failing-call"]))
         s = {"op": kind}
         if kind in ("enter", "update"):
             s["args"] = dict((k, draw(pool[k])) for k in draw(st.sets(
@@ -492,6 +493,10 @@ def strat_blocks(draw, tier):
         elif kind == "probe":
             s["explicit"] = dict((k, draw(pool[k])) for k in draw(st.sets(
                 st.sampled_from(["x", "y", "p"]), max_size=3)))
+        elif kind == "reenter":
+            s["which"] = draw(st.integers(0, 9))
+        elif kind == "failing-call":
+            s["how"] = draw(st.sampled_from(["ValueError", "timeout"]))
         steps.append(s)
     return {"steps": steps}
 
@@ -506,9 +511,12 @@ def check_blocks(case):
         with sut("MachineController"):
             mc = w.controller()
             mc.scp_data_length
-        model = [dict(mc.get_context_arguments())]     # stack of dicts
+        # stack of dicts; a context object entered twice contributes the SAME
+        # dict twice (updates through one entry show through the other)
+        model = [dict(mc.get_context_arguments())]
         apps = [None]                                   # app id per level
         stack = []
+        created = []                   # (context object, its dict, app id)
         nontrivial = False
 
         def merged():
@@ -559,8 +567,33 @@ def check_blocks(case):
                 stack.append(c)
                 model.append(dict(step["args"]))
                 apps.append(None)
+                created.append((c, model[-1], None))
                 if len(stack) >= 2:
                     nontrivial = True
+            elif op == "reenter":
+                if not created:
+                    continue
+                c, d, app = created[step["which"] % len(created)]
+                with sut("re-entering a context object"):
+                    c.__enter__()
+                stack.append(c)
+                model.append(d)
+                apps.append(app if app is None else
+                            d.get("app_id", app))
+                nontrivial = True
+            elif op == "failing-call":
+                # a documented exception raised from inside a method must not
+                # disturb how later calls are resolved
+                from rig.machine_control.scp_connection import SCPError
+                try:
+                    with sut("a failing call", (ValueError, SCPError)):
+                        if step["how"] == "ValueError":
+                            mc.read_across_link(SDRAM + 1, 4, 0, 0, 0)
+                        else:
+                            mc.read(SDRAM, 4, 7, 7)
+                    require(False, "a call that must fail returned", {})
+                except (ValueError, SCPError):
+                    pass
             elif op == "app":
                 with sut("entering an application block"):
                     if step["style"] == "pos":
@@ -574,6 +607,7 @@ def check_blocks(case):
                 stack.append(c)
                 model.append({"app_id": step["app_id"]})
                 apps.append(step["app_id"])
+                created.append((c, model[-1], step["app_id"]))
             elif op == "update":
                 with sut("update_current_context"):
                     mc.update_current_context(**step["args"])
